@@ -284,6 +284,10 @@ def poly_roles(e, env=None, depth=0):
         return Poly.var('%s(%s)' % (fn, args))
     if isinstance(e, ast.Subscript):
         return Poly.var('%s[%s]' % (repr(poly_roles(e.value, env, depth + 1)), norm(e.slice)))
+    if isinstance(e, ast.BinOp) and isinstance(e.op, (ast.Mod, ast.FloorDiv)):
+        # not polynomial: an atom over the (canonical) operands
+        return Poly.var('%s(%r, %r)' % ('mod' if isinstance(e.op, ast.Mod) else 'floordiv',
+                                        cancel(poly_roles(e.left, env, depth + 1)), cancel(poly_roles(e.right, env, depth + 1))))
     raise ValueError('not understood: %s' % norm(e))
 
 
